@@ -92,6 +92,7 @@ pub fn pairs40<F: MonF>(cx: &mut Cx, idx: u64, seed: u64) {
     if let Some(mut pr) = build_pair(cx, &mut rng, la, lb, pa, pb, mode) {
         make_prefix_pair(cx, &mut pr, idx);
         zero_pad(&mut pr, idx);
+        sign_skew(&mut pr, idx);
         let want = oracle::conv(&pr.a, &pr.b);
         mult_both_orders::<F>(cx, &pr, &want);
     }
@@ -125,6 +126,20 @@ fn zero_pad(pr: &mut Pair, idx: u64) {
         for x in v[keep..].iter_mut() {
             *x = 0;
         }
+    }
+}
+
+/// every thirteenth case: one operand becomes sign-skewed - all of its large coefficients negative (or all positive),
+/// the few of the other sign tiny - magnitudes unchanged, so the pair stays inside the envelope
+fn sign_skew(pr: &mut Pair, idx: u64) {
+    if idx % 13 != 7 {
+        return;
+    }
+    let v = if idx % 2 == 0 { &mut pr.a } else { &mut pr.b };
+    let neg = (idx / 13) % 2 == 0;
+    for (i, x) in v.iter_mut().enumerate() {
+        let big = if neg { -x.abs() } else { x.abs() };
+        *x = if i % 9 == 4 { if neg { 1 } else { -1 } } else { big };
     }
 }
 
@@ -227,6 +242,7 @@ pub fn pattern<F: MonF>(cx: &mut Cx, idx: u64, seed: u64) {
         if let Some(mut pr) = build_pair(cx, &mut rng, la, lb, pa, pb, mode) {
             make_prefix_pair(cx, &mut pr, idx / 16);
             zero_pad(&mut pr, idx / 16);
+            sign_skew(&mut pr, idx / 16);
             let want = oracle::conv(&pr.a, &pr.b);
             mult_both_orders::<F>(cx, &pr, &want);
         }
